@@ -221,6 +221,25 @@ def generate(rng, seed, size):
         uses_lt = any("&'a str" in v["tys"] for v in variants)
         decl = "<'a>" if uses_lt else ""
         inst = "<'static>" if uses_lt else ""
+        # a type parameter (never displayed: Display is derived without bounds) in a fixed-name variant
+        if not uses_lt and not robust and rng.random() < 0.12:
+            decl, inst = "<T>", "<u8>"
+            gv = dict(ident="Gen%d" % len(variants), kind=rng.choice(["tuple", "named"]), disabled=False, attrs=[], fixed=None,
+                      literal=None, tys=["T"], fnames=["gen_field"], ref=None)
+            attrs, canon = gen_fixed_attrs(rng)
+            gv["attrs"] = attrs
+            gv["fixed"] = canon if canon is not None else (casing.convert("Gen", style) if False else gv["ident"])
+            if style is not None:
+                # keep identifiers in the unambiguous domain when serialize_all is set: give it an explicit name
+                gv["attrs"] = ['#[strum(to_string = "generic")]']
+                gv["fixed"] = "generic"
+            variants.insert(rng.randrange(0, len(variants) + 1), gv)
+        # explicit discriminants under an integer repr (legal for variants with fields too)
+        discr = None
+        if not robust and rng.random() < 0.15:
+            vals = rng.sample(range(0, 200), len(variants))
+            discr = vals
+            out.append("#[repr(u8)]\n")
         out.append("#[derive(strum::Display, Debug)]\n")
         if prefix is not None:
             out.append("#[strum(prefix = %s)]\n" % rs(prefix))
@@ -233,12 +252,13 @@ def generate(rng, seed, size):
                 lines = noise.place(rng, lines, noise.variant_noise(rng, 0.25, False))
             for a in lines:
                 out.append("    %s\n" % a)
+            dsuf = "" if discr is None else " = %d" % discr[variants.index(v)]
             if v["kind"] == "unit":
-                out.append("    %s,\n" % v["ident"])
+                out.append("    %s%s,\n" % (v["ident"], dsuf))
             elif v["kind"] == "tuple":
-                out.append("    %s(%s),\n" % (v["ident"], ", ".join(v["tys"])))
+                out.append("    %s(%s)%s,\n" % (v["ident"], ", ".join(v["tys"]), dsuf))
             else:
-                out.append("    %s { %s },\n" % (v["ident"], ", ".join("%s: %s" % (n, t) for n, t in zip(v["fnames"], v["tys"]))))
+                out.append("    %s { %s }%s,\n" % (v["ident"], ", ".join("%s: %s" % (n, t) for n, t in zip(v["fnames"], v["tys"])), dsuf))
         out.append("}\n")
         sel = [v for v in variants if not v["disabled"]]
         pfx = prefix or ""
